@@ -77,6 +77,33 @@ theorem readLineEnding_flat_ne_panic (r : List Item) : (readLineEnding flatSrc r
   | blocked => simp
   | panic => exact absurd (by rw [h1]) (specExact_ne_panic 1 r)
 
+theorem skipTrailersLoop_flat_ne_panic (k : Nat) (r : List Item) :
+    (skipTrailersLoop flatSrc k r).1 ≠ .panic := by
+  induction k generalizing r with
+  | zero => simp [skipTrailersLoop]
+  | succ k ih =>
+    unfold skipTrailersLoop
+    rcases h : readLine flatSrc r Consts.trailerLineLimit with ⟨res, r'⟩
+    cases res with
+    | ok line =>
+      simp only
+      split
+      · simp
+      · exact ih r'
+    | err e => simp
+    | blocked => simp
+    | panic => exact absurd (by rw [h]) (readLine_flat_ne_panic r _)
+
+theorem skipTrailers_flat_ne_panic (r : List Item) : (skipTrailers flatSrc r).1 ≠ .panic :=
+  skipTrailersLoop_flat_ne_panic _ r
+
+theorem chunkEnd_flat_ne_panic (last : Bool) (r : List Item) :
+    (chunkEnd flatSrc last r).1 ≠ .panic := by
+  unfold chunkEnd
+  cases last
+  · exact readLineEnding_flat_ne_panic r
+  · exact skipTrailers_flat_ne_panic r
+
 theorem readChunkSize_flat_ne_panic (c : Chunked (List Item)) :
     (c.readChunkSize flatSrc).1 ≠ .panic := by
   unfold Chunked.readChunkSize
@@ -103,12 +130,12 @@ theorem refillData_flat_ne_panic (c : Chunked (List Item)) (m : Nat) :
     have : ¬ c.remaining < bs.length := by omega
     simp only [this, if_false]
     split
-    · rcases h2 : readLineEnding flatSrc r' with ⟨res2, r''⟩
+    · rcases h2 : chunkEnd flatSrc c.reachedEof r' with ⟨res2, r''⟩
       cases res2 with
       | ok b => cases b <;> simp
       | err e => simp
       | blocked => simp
-      | panic => exact absurd (by rw [h2]) (readLineEnding_flat_ne_panic r')
+      | panic => exact absurd (by rw [h2]) (chunkEnd_flat_ne_panic _ r')
     · simp
   | err e => simp
   | blocked => simp
